@@ -333,7 +333,9 @@ def c15_admit_gen(rng, tier):
         kinds = rng.choice([["uq"], ["uq", "tq"], ["uq", "tq", "qq"], ["qq"], ["qq", "uq"], ["tq"]])
         clients = rng.sample(CLIENTS, rng.choice([1, 2, 3]))
         for _ in range(rng.choice([3, 5, 8, 10])):
-            if http and rng.random() < 0.4:
+            if http and rng.random() < 0.12:
+                steps.append("hx:%d" % rng.randrange(10))
+            elif http and rng.random() < 0.4:
                 steps.append("hq:" + rng.choice(HDR_ADDRS))
             else:
                 steps.append("%s:%s" % (rng.choice(kinds), rng.choice(clients)))
@@ -353,6 +355,8 @@ def c15_admit_gen(rng, tier):
         rng.shuffle(others)
         steps = ["hc:" + HTTP_CARRIER, "hq:" + noisy, "hq:" + noisy]
         steps += ["hq:" + a for a in others[:rng.choice([3, 5, 6])]]
+        if rng.random() < 0.5:
+            steps.insert(rng.randrange(2, len(steps) + 1), "hx:%d" % rng.randrange(10))
         steps.append("hq:" + noisy)
         out.append("m%d rate=1 burst=%d v4=%d v6=%d global=0 steps=%s" % (i, burst, v4, v6, ",".join(steps)))
     return out
@@ -380,9 +384,14 @@ def c15_admit_oracle(line, res):
 
     for st, o in zip(steps, outs):
         kind, a = st.split(":")
-        k = bucket(a)
         if o.endswith("+fwd"):
-            return "step %s: outcome %s but the query reached the upstream (a refused query must not be forwarded)" % (st, o)
+            return "step %s: outcome %s but the query reached the upstream (a query the limiter did not admit must not be forwarded)" % (st, o)
+        if kind == "hx":
+            # the client address header does not parse: no subnet can be charged, so the request must not be processed
+            if o != "400":
+                return "step %s: a request whose client address header does not parse was answered %s; it must get 400 and must not be processed" % (st, o)
+            continue
+        k = bucket(a)
         if "-nofwd" in o:
             return None
         if kind == "hc":
@@ -648,6 +657,243 @@ def c15_race_classify(line, res):
     return "%s/%s fam%s g=%s" % (f["clock"], f["mode"], f["fam"], f["g"])
 
 
+# ---- round 4: the composed limiter (global bucket + per-subnet buckets) through resourceLimiter.AllowN ------------
+def _ph(calls, sleep=0):
+    return "%d/%s" % (sleep, "+".join("%s:%d" % (a, n) for a, n in calls))
+
+
+def c15_global_gen(rng, tier):
+    out = []
+    k = 0
+
+    def subnets(n, fam=None):
+        res = []
+        for i in range(n):
+            if (fam or rng.choice("446")) == "4":
+                res.append(a4((10 << 24) | (rng.randrange(1, 250) << 16) | (rng.randrange(256) << 8) | rng.randrange(1, 255)))
+            else:
+                res.append(a6((0x20010DB8 << 96) | (rng.randrange(1 << 32) << 64) | rng.randrange(1, 1 << 16)))
+        return res
+
+    # (1) overload: other subnets (each within its own budget) use up the global bucket while the victim retries;
+    #     after the global bucket has refilled the victim asks again
+    for i in range(budget(tier, 24, 240)):
+        g = rng.choice([3, 5, 5, 8, 10])
+        rate = rng.choice([1, 1, 2])
+        burst = rng.choice([3, 4, 5, 6, 8])
+        victim = subnets(1)[0]
+        others = subnets(g + 2)
+        p0 = [(a, 1) for a in others[:g]]
+        tries = rng.choice([1, 2, burst - 1, burst, burst + 2])
+        vcalls = [(victim, 1)] * tries
+        if rng.random() < 0.5:
+            p0 = p0 + vcalls
+        else:                       # interleaved with a second wave of the others
+            p0 = p0 + vcalls[:tries // 2] + [(a, 1) for a in others[g:]] + vcalls[tries // 2:]
+        phases = [_ph(p0)]
+        if rng.random() < 0.4:      # the victim keeps retrying while the overload goes on
+            phases.append(_ph([(rng.choice(others), 1) for _ in range(g)] + [(victim, 1)] * rng.choice([1, 2, 3]),
+                              rng.choice([300, 600, 1000])))
+        p2 = [(victim, 1)] * rng.choice([1, 2, 3, burst]) + [(rng.choice(others), 1) for _ in range(rng.choice([0, 2]))]
+        phases.append(_ph(p2, rng.choice([1100, 1300, 1600])))
+        out.append("g%d global=%d rate=%d burst=%d v4=%d v6=%d ph=%s" % (
+            k, g, rate, burst, rng.choice([0, 24]), rng.choice([0, 48, 64]), ",".join(phases)))
+        k += 1
+    # (2) random phases over a few subnets, global limit on/off, client limit on/off
+    for i in range(budget(tier, 40, 400)):
+        g = rng.choice([0, 0, 3, 5, 10, 20, 50])
+        rate = rng.choice([1, 2, 5, 20]) if rng.random() < 0.9 else 0
+        burst = rng.choice([0, 3, 5, 10, 15])
+        pool = subnets(rng.choice([2, 3, 5]))
+        if rng.random() < 0.3:
+            x = rng.randrange(1 << 32)
+            pool += [a4(x), mapped(x)]
+        if rng.random() < 0.5:
+            pool.append(a4(parse_addr(pool[0])[1] ^ 1) if pool[0].startswith("4-") else a6(parse_addr(pool[0])[1] ^ 1))
+        _, beff, _, _ = prop_defaults(dict(rate=rate, burst=burst, v4=0, v6=0))
+        phases = []
+        total = 0
+        for j in range(rng.choice([1, 2, 3, 4])):
+            sl = 0 if j == 0 else rng.choice([0, 200, 500, 900, 1100, 1500])
+            if total + sl > 3000:
+                sl = 0
+            total += sl
+            calls = [(rng.choice(pool), rng.choice([1, 1, 1, 2, 3, 15, beff, beff + 1])) for _ in range(rng.choice([3, 8, 15, 25]))]
+            phases.append(_ph(calls, sl))
+        out.append("g%d global=%d rate=%d burst=%d v4=%d v6=%d ph=%s" % (
+            k, g, rate, burst, rng.choice([0, 24, 32]), rng.choice([0, 48, 56]), ",".join(phases)))
+        k += 1
+    return out
+
+
+def _global_parse(line, res):
+    f = gens.fields(line)
+    r = gens.fields(res)
+    if "t=" not in res or "res" not in r:
+        return None
+    phases = []
+    for ps in f["ph"].split(","):
+        sl, cs = ps.split("/", 1)
+        phases.append([(c.split(":")[0], int(c.split(":")[1])) for c in cs.split("+") if c])
+    times = [tuple(int(x) for x in t.split(":")) for t in r["t"].split(",")]
+    rs = [("" if x == "-" else x) for x in r["res"].split(",")]
+    if len(times) != len(phases) or len(rs) != len(phases) or any(len(a) != len(b) for a, b in zip(phases, rs)):
+        return None
+    return f, phases, times, rs
+
+
+def c15_global_respec(line, res):
+    if _global_parse(line, res) is None:
+        return None
+    r = gens.fields(res)
+    return "%s t=%s ires=%s" % (line, r["t"], r["res"])
+
+
+def c15_global_oracle(line, res):
+    """The property on the results of the real resourceLimiter.  Reference buckets follow the implementation's own
+    results; every bucket is kept as an interval [lo, hi] of tokens (a call of phase p happened somewhere in [a_p, b_p]).
+    * admitted although the subnet's own bucket (charged with what was ADMITTED for it, nothing else) cannot hold the cost
+    * refused by the CLIENT limit although that bucket surely holds the cost: the subnet is within its budget and is
+      refused because of other traffic (queries the global limit refused must not be charged to the subnet)
+    * refused by the GLOBAL limit although none is configured / although the global bucket (charged with every query
+      that got past it) surely holds the cost"""
+    p = _global_parse(line, res)
+    if p is None:
+        return None
+    f, phases, times, rs = p
+    glob = int(f["global"])
+    has_client = int(f["rate"]) > 0
+    rate, burst, v4, v6 = prop_defaults(f)
+    st = {}                      # key -> [lo, hi, t_last_lo, t_last_hi]
+    G = [glob * S, glob * S, 0, 0]
+
+    def adv(b, cap, rt, a, bb):
+        # refill over at least (a - t_last_hi) and at most (bb - t_last_lo)
+        lo = min(cap, b[0] + rt * max(0, a - b[3]))
+        hi = min(cap, b[1] + rt * max(0, bb - b[2]))
+        return lo, hi
+
+    for calls, (a, bb), r in zip(phases, times, rs):
+        for (addr, n), x in zip(calls, r):
+            k = prop_key(addr, v4, v6)
+            if has_client and k not in st:
+                st[k] = [burst * S, burst * S, a, bb]
+            glo, ghi = adv(G, glob * S, glob, a, bb) if glob > 0 else (0, 0)
+            if x == "g":
+                if glob <= 0:
+                    return "call %s:%d refused by the global limit although no global limit is configured" % (addr, n)
+                if n <= glob and glo - n * S >= EPS:
+                    return "call %s:%d refused by the global limit although the global bucket holds at least %.6f tokens" % (
+                        addr, n, glo / S)
+                continue         # a query the global limit refuses is charged to nobody
+            if glob > 0:
+                if x == "o" and n * S > ghi + glob + EPS:
+                    return "global limit exceeded: call %s:%d got past the global bucket holding at most %.6f tokens" % (addr, n, ghi / S)
+                # lower bound: every query that was not refused by the global limit has been charged to it (the code
+                # consults the global bucket first); upper bound: only what was ADMITTED is known to have been charged
+                G[0], G[1], G[2], G[3] = max(glo - n * S, -glob), (ghi - n * S if x == "o" else ghi), a, bb
+            if not has_client:
+                if x == "c":
+                    return "call %s:%d refused by the client limit although no client limit is configured" % (addr, n)
+                continue
+            b = st[k]
+            lo, hi = adv(b, burst * S, rate, a, bb)
+            if x == "o":
+                if n * S > hi + rate + EPS:
+                    return "window bound exceeded: subnet %s admitted cost %d holding at most %.6f tokens (burst %d, rate %d)" % (
+                        k, n, hi / S, burst, rate)
+                b[0], b[1], b[2], b[3] = max(lo - n * S, -rate), hi - n * S, a, bb
+            elif x == "c":
+                if n <= burst and lo - n * S >= EPS:
+                    return ("subnet %s is within its budget (its own bucket, charged only with what was admitted for it, holds at "
+                            "least %.6f tokens; burst %d, rate %d) and is refused cost %d by the CLIENT limit: refused because of "
+                            "other subnets' traffic (e.g. queries the global limit refused were charged to the subnet)" % (
+                                k, lo / S, burst, rate, n))
+                # a refusal changes nothing
+            else:
+                return None
+    return None
+
+
+def c15_global_classify(line, res):
+    f = gens.fields(line)
+    r = gens.fields(res).get("res", "")
+    c = "global-%s client-%s" % ("on" if int(f["global"]) > 0 else "off", "on" if int(f["rate"]) > 0 else "off")
+    c += " =>" + "".join(sorted(set(x for x in r if x in "ogc")))
+    if f["ph"].count(",") and "g" in r.split(",")[0]:
+        c += " refill-after-global-refusal"
+    return c
+
+
+# ---- round 4, end to end: overload of the global limit through the real UDP listener ----------------------------------
+def c15_admitglobal_gen(rng, tier):
+    out = []
+    for i in range(budget(tier, 8, 60)):
+        g = rng.choice([8, 10, 12])
+        burst = rng.choice([6, 7, 9])
+        victim = a4(0x7F000201 + (rng.randrange(1, 9) << 8))                  # 127.0.x.1
+        others = [a4(0x7F001401 + (j << 8)) for j in range(12)]                # 127.0.20.1 ... (one /24 each)
+        rng.shuffle(others)
+        steps = ["uq:" + a for a in others[:rng.choice([4, 5, 6])]]           # each within its own budget (cost 1 + 3)
+        tries = rng.choice([3, 5, burst, burst + 1])
+        pos = rng.choice([0, 2])
+        flood = steps[pos:] + ["uq:" + victim] * tries
+        if rng.random() < 0.5:
+            flood = flood[:len(steps) - pos + tries // 2] + ["uq:" + a for a in others[6:8]] + flood[len(steps) - pos + tries // 2:]
+        steps = steps[:pos] + flood
+        steps.append("sl:%d" % rng.choice([1200, 1400]))
+        steps += ["uq:" + victim] * 3
+        out.append("ag%d rate=1 burst=%d v4=0 v6=0 global=%d victim=%s steps=%s" % (i, burst, g, victim, ",".join(steps)))
+    return out
+
+
+def c15_admitglobal_oracle(line, res):
+    """Other subnets, each within its own budget, use up the global bucket while the victim retries; after a pause > 1 s
+    (the global bucket, rate = burst, is full again) the victim's k-th query must be answered as long as what was
+    ADMITTED for its subnet (an answered query is charged at most 1 + 3) still leaves the cost of a query:
+    4*(answered so far) + 1 <= burst, and the same for the global bucket.  Refill is not even counted."""
+    f = gens.fields(line)
+    r = gens.fields(res)
+    if "out" not in r or "SLOW" in res:
+        return None
+    outs = r["out"].split(",")
+    steps = [x for x in f["steps"].split(",") if x]
+    if len(outs) != len(steps) or "SL" not in outs:
+        return None
+    burst, glob, victim = int(f["burst"]), int(f["global"]), f["victim"]
+    cut = outs.index("SL")
+    for st, o in zip(steps, outs):
+        if o.endswith("+fwd"):
+            return "step %s: outcome %s but the query reached the upstream (a refused query must not be forwarded)" % (st, o)
+    # every try of the victim that was not REFUSED counts as charged (answered, or answer lost)
+    a = sum(1 for st, o in zip(steps[:cut], outs[:cut]) if st == "uq:" + victim and o != "REFUSED")
+    k = 0
+    for st, o in zip(steps[cut + 1:], outs[cut + 1:]):
+        if st != "uq:" + victim:
+            return None
+        own = 4 * (a + k) + 1
+        if own > burst or 4 * k + 1 > glob:
+            return None
+        if o == "REFUSED":
+            return ("the victim %s (nothing but %d answered queries, cost <= %d, was ever admitted for its subnet; burst %d, 1/s) is "
+                    "REFUSED %d ms after the overload although the global bucket (%d/s) is full again and its own bucket must "
+                    "hold at least %d tokens: refused because of other subnets' traffic (its refused tries during the overload "
+                    "were charged to it)" % (victim, a + k, 4 * (a + k), burst, int(steps[cut].split(":")[1]), glob, burst - 4 * (a + k)))
+        if not o.startswith("ANS"):
+            return None
+        k += 1
+    return None
+
+
+def c15_admitglobal_classify(line, res):
+    r = gens.fields(res).get("out", "")
+    outs = r.split(",")
+    if "SL" not in outs:
+        return "not-run"
+    cut = outs.index("SL")
+    return "overload:%s after:%s" % ("refusals" if "REFUSED" in outs[:cut] else "no-refusal", "/".join(outs[cut + 1:]))
+
+
 C15_TRUST = ["C15: x/time/rate modelled as an exact integer-arithmetic token bucket (tokens scaled by 1e9); decisions within "
              "1e-6 token of the threshold are not compared (float64)",
              "C15: xsync.MapOf.LoadOrCompute is ONE atomic get-or-create step (the interleaving machine of LimiterConc.v); "
@@ -663,6 +909,11 @@ PROPS["C15"] = dict(
              classify=c15_config_classify, shards=4, timeout=600, nontrivial=lambda l, r: "eff=" in r),
         dict(name="limrace", gen=c15_race_gen, oracle=c15_race_oracle, compare=c15_race_compare,
              classify=c15_race_classify, timeout=600, nontrivial=lambda l, r: r.startswith("r=")),
+        dict(name="limglobal", gen=c15_global_gen, oracle=c15_global_oracle, model=False, respec=c15_global_respec,
+             respec_kind="limglobalspec", respec_all=True, classify=c15_global_classify, timeout=600,
+             nontrivial=lambda l, r: r.startswith("t=")),
+        dict(name="admitglobal", gen=c15_admitglobal_gen, oracle=c15_admitglobal_oracle, model=False,
+             classify=c15_admitglobal_classify, timeout=600, nontrivial=lambda l, r: r.startswith("out=") and "SL" in r),
         dict(name="admit", gen=c15_admit_gen, oracle=c15_admit_oracle, classify=c15_admit_classify, timeout=600,
              nontrivial=lambda l, r: r.startswith("out=")),
     ],
